@@ -126,12 +126,14 @@ def monitor_run(run):
                 if b != o["id"] and b in outs and outs[b]["cont"] is not None and outs[b]["cont"] != o["cont"]:
                     hits.append(dict(what="agreement: two honest members, one in the other's list, completed with different lists",
                                      a=o["id"], la=o["cont"], b=b, lb=outs[b]["cont"]))
-    if run["class"] in ("exact", "teardown"):
+    if run["class"] in ("exact", "teardown", "probes"):
         want = sorted(run["running"])
         for o in run["outcomes"]:
             if o["cont"] != want:
                 hits.append(dict(what="liveness: exactly the expected honest members ran, every message was delivered%s, but a member "
-                                      "did not complete with the full list" % (" (each member stops being served once it is through)" if run["teardown"] else ""),
+                                      "did not complete with the full list" % (" (each member stops being served once it is through)" if run["teardown"] else
+                                                                             " (members probe at different intervals: %s ms, pattern %s; deadline = 12 slow intervals + 1 s)"
+                                                                             % (run["probe_ms"], run["pattern"]) if run["class"] == "probes" else ""),
                                  member=o["id"], got=o["cont"], err=o["err_text"]))
     if run["class"] == "few":
         for o in run["outcomes"]:
@@ -253,7 +255,7 @@ def run(pid, tier, seed):
     chk.cov["distinct_nontrivial"] = len(set(vlib.canon_hash([(o["op"], o["from"], o["data"]) for o in sc["ops"]] + [sc["self"], sc["expected"]])
                                              for sc in scen if nontrivial(sc))) + \
         len(set(vlib.canon_hash([r["class"], r["members"], r["running"], r["byz"], r["byz_kind"], r["expected"]]) for r in runs
-                if any(o["cont"] is not None for o in r["outcomes"]) or r["class"] not in ("exact", "teardown")))
+                if any(o["cont"] is not None for o in r["outcomes"]) or r["class"] not in ("exact", "teardown", "probes")))
     chk.cov["rule"] = ("(a) operation lists executed on a real disc.Member: step mode = topic registered through a verif hook, "
                        "HandleMessage(from, bytes) / freeze / intersectedView with the frozen copy (a HandleMessage landed between its "
                        "passes) / intersectedView / drain, all synchronous; sync mode = a real Synchronize goroutine (probe interval 100 us) "
@@ -263,7 +265,7 @@ def run(pid, tier, seed):
                        "stored, response sent, intersectedView non-empty, query or continuation reached; distinct by (configuration, "
                        "operation list). (b) whole runs of 2..6 configured members with real Synchronize goroutines over a seeded in-memory "
                        "router (identifiers incl. the UTF-16 surrogate block, U+FFFD, UTF-8 length boundaries and list separator bytes, several of a class "
-                       "per universe; classes exact / twins: four members two of which differ only within an encoding class, links between the halves late / exact with teardown: a member is no longer handed messages once its Synchronize is through / too few / "
+                       "per universe; classes exact / probes: exact with unequal probe intervals per member, 1:100 and 1:10, one fast among slow or one slow among fast / twins: four members two of which differ only within an encoding class, links between the halves late / exact with teardown: a member is no longer handed messages once its Synchronize is through / too few / "
                        "too many / with scripted Byzantine members), checked by monitors only; distinct by "
                        "configuration. evaluations = operations executed + member outcomes of whole runs")
     sync = [sc for sc in scen if sc["mode"] == "sync"]
@@ -287,6 +289,8 @@ def run(pid, tier, seed):
         pass2_nonempty=sum(1 for o in ops if o["op"] == "pass2" and o["iv"]),
         pass2_differs_from_live_pass=sum(1 for sc in scen for a, b in zip(sc["ops"], sc["ops"][1:])
                                          if a["op"] == "pass2" and b["op"] == "pass" and a["iv"] != b["iv"]),
+        probe_interval_patterns=dict(collections.Counter(r["pattern"] for r in runs if r["class"] == "probes")),
+        probe_runs_longest_ms=max([r["ms"] for r in runs if r["class"] == "probes"] or [0]),
         whole_run_classes=dict(collections.Counter(r["class"] for r in runs)),
         whole_run_outcomes=dict(collections.Counter("%s:%s" % (r["class"], o["err"]) for r in runs for o in r["outcomes"])),
         whole_run_byzantine=dict(collections.Counter(k for r in runs for k in r["byz_kind"])),
